@@ -983,7 +983,9 @@ func (w *World) abortClient(c *Client) {
 // written but the network had not delivered is dropped, a FIN follows.
 func (n *Net) AbortFIN(c *Conn) {
 	n.mu.Lock()
+	c.pair.mu.Lock()
 	c.out.inflight = nil
+	c.pair.mu.Unlock()
 	n.mu.Unlock()
 	c.Close()
 }
@@ -1208,12 +1210,14 @@ func (n *Net) KillAll() {
 	defer n.mu.Unlock()
 	for _, name := range n.names {
 		p := n.pairs[name]
+		p.mu.Lock()
 		for _, c := range []*Conn{p.A, p.B} {
 			c.in.rst = true
 			c.out.broken = true
 			c.in.inflight = nil
 			c.wakeLocked()
 		}
+		p.mu.Unlock()
 	}
 }
 
